@@ -740,11 +740,14 @@ Definition tree_of_input (i : input) : option tree :=
 Definition spec_next (sp : spec_st) (i : input) (d : list entry) (post : snap) : spec_st :=
   let moved := sp_moved sp || existsb focus_entry d in
   let redrawn := sn_redraw (sp_pre sp) in
+  (* updatePath refocuses the root when the focused widget has left the tree: one FocusOut,
+     one FocusIn; any further delivery means that a handler moved the focus again *)
+  let again := Nat.ltb 2 (length (filter focus_entry d)) in
   let tr :=
     match i with
-    | PUpdatePath t => (Some t, false)
-    | PRender t => (Some (sort_tree t), false)
-    | IFrame t => if redrawn then (Some (sort_tree t), false) else (sp_tree sp, moved)
+    | PUpdatePath t => (Some t, again)
+    | PRender t => (Some (sort_tree t), again)
+    | IFrame t => if redrawn then (Some (sort_tree t), again) else (sp_tree sp, moved)
     | _ => (sp_tree sp, moved)
     end in
   let fr :=
@@ -755,7 +758,6 @@ Definition spec_next (sp : spec_st) (i : input) (d : list entry) (post : snap) :
     | _ => sp_frame sp
     end in
   mkSpec (fst tr) fr (sp_log sp ++ d) post
-         (* a refocus done by updatePath itself happens before the path is completed *)
          (snd tr)
          (sp_termfocus sp || match i with ITermFocusIn => true | _ => false end)
          (sp_dup sp || match tree_of_input i with Some t => negb (nodup_z (ids t)) | None => false end).
@@ -785,3 +787,36 @@ Definition c15_direct_violations (cases : list dcase) : list Z := bad_indices (f
 (* finding streams: the property without any excuse, and every case counts as "under the guard" *)
 Definition c15_direct_strict_violations (cases : list dcase) : list Z := bad_indices (fun c => negb (d_case_holds true c)) cases.
 Definition c15_direct_all (cases : list dcase) : list Z := bad_indices (fun _ => true) cases.
+
+(* ---- app stream: capturers, root, script, inputs, the whole call log, the terminal commands *)
+Definition acase := (list wid * wid * list cmd * list input * list call3 * list cmd)%type.
+
+Definition a_case_ok (c : acase) : bool :=
+  match c with
+  | (capts, rt, script, ins, oc, oo) =>
+      match run (script_oracle script) (capt_of capts) (model_fuel script) (init_st rt) ins with
+      | None => false
+      | Some s => list_eqb call3_eqb (map entry_call (log (co s))) oc &&
+                  list_eqb cmd_eqb (filter is_out (effs (co s))) oo
+      end
+  end.
+
+Definition c15_app_mismatches (cases : list acase) : list Z := bad_indices (fun c => negb (a_case_ok c)) cases.
+
+(* the history-level clauses of the property on the observed log *)
+Definition a_case_holds (strict : bool) (c : acase) : bool :=
+  match c with
+  | (capts, rt, script, ins, oc, oo) =>
+      let lg := attach script 0 oc in
+      let guard (b : bool) := negb strict && b in
+      let termfocus := existsb (fun i => match i with ITermFocusIn => true | _ => false end) ins in
+      let dup := existsb (fun i => match tree_of_input i with Some t => negb (nodup_z (ids t)) | None => false end) ins in
+      (match focus_chain rt (focus_log lg) with Some _ => true | None => false end || guard (focus_in_focusout lg)) &&
+      forallb (fun w => match hover_state false (hover_log w lg) with Some _ => true | None => false end
+                        || guard (dup || (termfocus && (w =? rt)))) (widgets_of lg) &&
+      same_bag oo (filter is_out (rets lg))
+  end.
+
+Definition c15_app_violations (cases : list acase) : list Z := bad_indices (fun c => negb (a_case_holds false c)) cases.
+Definition c15_app_strict_violations (cases : list acase) : list Z := bad_indices (fun c => negb (a_case_holds true c)) cases.
+Definition c15_app_all (cases : list acase) : list Z := bad_indices (fun _ => true) cases.
